@@ -183,6 +183,42 @@ Proof.
 Qed.
 Print Assumptions C18_vertex_in_leg.
 
+(* ------------------------------------------------------------------ the cached path (Drillhole._locations) is never stale *)
+(* histories of collar changes, survey changes, position queries and add_data calls on one hole: the implementation
+   (cache reset by the collar and surveys setters, filled by the first use) returns exactly what the cache-free
+   specification returns, in which the path is recomputed from the CURRENT collar and surveys at every use *)
+Theorem C18_path_cache_coherent : forall (ang : Type) (dir : ang -> V3) collar (s : list (Q * ang)) ops,
+  snd (drun dir (dfresh collar s) ops) = snd (drun_spec dir (dfresh collar s) ops).
+Proof.
+  intros ang dir collar s ops. apply drun_spec_eq; [left; reflexivity|left; reflexivity|repeat split].
+Qed.
+Print Assumptions C18_path_cache_coherent.
+
+(* after ANY such history a query returns the desurvey of the current collar and surveys (so, by C18_collar_at_zero,
+   depth 0 is the CURRENT collar), and an add_data call places its vertices with the current path *)
+Theorem C18_current_path_after_history : forall (ang : Type) (dir : ang -> V3) collar (s : list (Q * ang)) ops ds subs,
+  let h := fst (drun dir (dfresh collar s) ops) in
+  snd (dstep dir h (DQuery ds)) = Some (OQuery (map (desurvey dir (d_collar h) (d_surveys h)) ds))
+  /\ d_data (fst (dstep dir h (DCall subs))) = hcall (pos_of dir (d_collar h) (d_surveys h)) (d_data h) subs.
+Proof.
+  intros ang dir collar s ops ds subs h. apply dstep_current. apply drun_coherent. left. reflexivity.
+Qed.
+Print Assumptions C18_current_path_after_history.
+
+Example C18_cache_nonvacuous :
+  let s := [ (0, (30, 0)); (50, (90, 0)) ]%Q in
+  let ops := [ DQuery [0; 10]%Q; DSetCollar (-50, 25, 10)%Q; DQuery [0; 10]%Q;
+               DSetSurveys [ (0, (0, -90)) ]%Q; DCall [AddDepth 0 [5]%Q [Some 1%Q] (1 # 100)%Q]; DQuery [0]%Q ] in
+  let s' := [ (0, (90, 0)); (50, (90, 0)) ]%Q in
+  dh_agree (100, 200, 300)%Q s' (DQuery [0; 10]%Q :: DSetCollar (-50, 25, 10)%Q :: DQuery [0; 10]%Q
+                               :: DSetSurveys [ (0, (0, -90)) ]%Q :: DCall [AddDepth 0 [5]%Q [Some 1%Q] (1 # 100)%Q]
+                               :: DQuery [0]%Q :: nil)
+    [ OQuery [Some (100, 200, 300); Some (110, 200, 300)]%Q;
+      OQuery [Some (-50, 25, 10); Some (-40, 25, 10)]%Q;
+      OCall [ (Some 5, (-50, 25, 5), [Some 1]) ]%Q [];
+      OQuery [Some (-50, 25, 10)]%Q ] = true.
+Proof. vm_compute. reflexivity. Qed.
+
 (* sort_depths moves whole rows: every vertex keeps its position, its DEPTH and the value of every vertex child *)
 Theorem C18_sort_keeps_rows : forall (pos : Q -> V3) h, inv_weak pos h ->
   forall i, i < length (h_verts h) ->
